@@ -672,6 +672,79 @@ Section Strong.
       rewrite (valued_is_spec s h1 m I F1 L (or_intror E1)).
       rewrite (valued_is_spec s h2 m I F2 L (or_intror E2)). reflexivity.
   Qed.
+  (* ---- address lists again, from ANY state of the invariant (no [settled]) *)
+  Lemma be_map l : ltN l -> Forall be_op (map Evaluate l).
+  Proof.
+    unfold ltN. rewrite !Forall_forall. intros F o Ho. apply in_map_iff in Ho.
+    destruct Ho as [a [<- Ha]]. cbn. auto.
+  Qed.
+
+  Lemma list_state_any s l1 l2 : Inv s -> ltN l1 -> ltN l2 -> (forall n, In n l1 <-> In n l2) ->
+    forall m, st_built (fst (evaluate_list s l1)) m = st_built (fst (evaluate_list s l2)) m
+              /\ st_cache (fst (evaluate_list s l1)) m = st_cache (fst (evaluate_list s l2)) m.
+  Proof.
+    intros I F1 F2 EM. rewrite !evaluate_list_run.
+    apply history_order; auto using be_map.
+    intros o. rewrite !in_map_iff. split; intros [a [E Ha]]; exists a; split; auto; apply EM; auto.
+  Qed.
+
+  Theorem same_members_any s l1 l2 : Inv s -> ltN l1 -> ltN l2 ->
+    (forall n, In n l1 <-> In n l2) ->
+    (forall m, st_built (fst (evaluate_list s l1)) m = st_built (fst (evaluate_list s l2)) m
+               /\ st_cache (fst (evaluate_list s l1)) m = st_cache (fst (evaluate_list s l2)) m)
+    /\ (forall c, c < N -> snd (evaluate (fst (evaluate_list s l1)) c)
+                           = snd (evaluate (fst (evaluate_list s l2)) c))
+    /\ (forall i1 i2, i1 < length l1 -> i2 < length l2 -> nth i1 l1 0 = nth i2 l2 0 ->
+          nth i1 (snd (evaluate_list s l1)) VNone = nth i2 (snd (evaluate_list s l2)) VNone).
+  Proof.
+    intros I F1 F2 EM.
+    destruct (list_inv l1 s I F1) as (I1 & K1 & _).
+    destruct (list_inv l2 s I F2) as (I2 & K2 & _).
+    split; [now apply list_state_any|]. split.
+    - intros c Lc. apply evaluate_same; auto. intros k Ik. rewrite K1, K2; auto.
+    - intros i1 i2 H1 H2 E.
+      destruct (list_path s l1 I F1) as [_ P1]. destruct (list_path s l2 I F2) as [_ P2].
+      rewrite P1, P2, E; auto.
+  Qed.
+
+  Theorem permutation_any s l1 l2 : Inv s -> ltN l1 -> Permutation l1 l2 ->
+    Permutation (combine l1 (snd (evaluate_list s l1))) (combine l2 (snd (evaluate_list s l2)))
+    /\ (forall c, c < N -> snd (evaluate (fst (evaluate_list s l1)) c)
+                           = snd (evaluate (fst (evaluate_list s l2)) c))
+    /\ (forall m, st_built (fst (evaluate_list s l1)) m = st_built (fst (evaluate_list s l2)) m
+                  /\ st_cache (fst (evaluate_list s l1)) m = st_cache (fst (evaluate_list s l2)) m).
+  Proof.
+    intros I F1 P.
+    assert (F2: ltN l2).
+    { unfold ltN in *. rewrite Forall_forall in *. intros x Hx. apply F1.
+      eapply Permutation_in; [apply Permutation_sym; exact P|exact Hx]. }
+    assert (EM: forall n, In n l1 <-> In n l2).
+    { intros n. split; apply Permutation_in; auto. now apply Permutation_sym. }
+    destruct (same_members_any s l1 l2 I F1 F2 EM) as (A & B & _).
+    split; [|split; auto].
+    destruct (list_path s l1 I F1) as [E1 _]. destruct (list_path s l2 I F2) as [E2 _].
+    rewrite E1, E2, !combine_map. now apply Permutation_map.
+  Qed.
+
+  Theorem list_repeat_any s l : Inv s -> ltN l ->
+    snd (evaluate_list (fst (evaluate_list s l)) l) = snd (evaluate_list s l)
+    /\ forall m, st_built (fst (evaluate_list (fst (evaluate_list s l)) l)) m
+                 = st_built (fst (evaluate_list s l)) m
+              /\ st_cache (fst (evaluate_list (fst (evaluate_list s l)) l)) m
+                 = st_cache (fst (evaluate_list s l)) m.
+  Proof.
+    intros I F.
+    destruct (list_inv l s I F) as (I1 & K1 & E1).
+    destruct (list_inv l (fst (evaluate_list s l)) I1 F) as (I2 & K2 & E2).
+    split.
+    - rewrite E1, E2. apply map_ext_in. intros a Ha.
+      unfold ltN in F. rewrite Forall_forall in F. apply evaluate_same; auto.
+    - assert (FF: ltN (l ++ l)) by (apply Forall_app; auto).
+      assert (E: fst (evaluate_list (fst (evaluate_list s l)) l) = fst (evaluate_list s (l ++ l))).
+      { rewrite !evaluate_list_run, map_app, run_app_fst. reflexivity. }
+      rewrite E. apply list_state_any; auto.
+      intros n. rewrite in_app_iff. tauto.
+  Qed.
 End Strong.
 
 (* ================================================================ weak *)
@@ -747,7 +820,7 @@ Section WeakList.
   Qed.
 
   (* C05_same_members *)
-  Theorem same_members_weak s l1 l2 : Inv W sem s -> settled W s -> ltN W l1 -> ltN W l2 ->
+  Theorem same_members_weak s l1 l2 : Inv W sem s -> ltN W l1 -> ltN W l2 ->
     (forall n, In n l1 <-> In n l2) ->
     (forall m, st_built (fst (evaluate_list W sem s l1)) m
                = st_built (fst (evaluate_list W sem s l2)) m
@@ -759,15 +832,15 @@ Section WeakList.
           nth i1 (snd (evaluate_list W sem s l1)) VNone
           = nth i2 (snd (evaluate_list W sem s l2)) VNone).
   Proof.
-    intros I S F1 F2 EM. apply (Inv_guard W sem WF NBW) in I.
+    intros I F1 F2 EM. apply (Inv_guard W sem WF NBW) in I.
     rewrite (evaluate_list_g l1 s F1), (evaluate_list_g l2 s F2).
-    destruct (same_members W g WF NB2 SO2 s l1 l2 I S F1 F2 EM) as (A & B & C).
+    destruct (same_members_any W g WF NB2 SO2 s l1 l2 I F1 F2 EM) as (A & B & C).
     split; [exact A|]. split; [|exact C].
     intros c Lc. rewrite !(evaluate_g _ c Lc). now apply B.
   Qed.
 
   (* C05_permutation *)
-  Theorem permutation_weak s l1 l2 : Inv W sem s -> settled W s -> ltN W l1 -> Permutation l1 l2 ->
+  Theorem permutation_weak s l1 l2 : Inv W sem s -> ltN W l1 -> Permutation l1 l2 ->
     Permutation (combine l1 (snd (evaluate_list W sem s l1)))
                 (combine l2 (snd (evaluate_list W sem s l2)))
     /\ (forall c, c < N -> snd (evaluate W sem (fst (evaluate_list W sem s l1)) c)
@@ -777,12 +850,12 @@ Section WeakList.
                   /\ st_cache (fst (evaluate_list W sem s l1)) m
                      = st_cache (fst (evaluate_list W sem s l2)) m).
   Proof.
-    intros I S F1 P. apply (Inv_guard W sem WF NBW) in I.
+    intros I F1 P. apply (Inv_guard W sem WF NBW) in I.
     assert (F2: ltN W l2).
     { unfold ltN in *. rewrite Forall_forall in *. intros x Hx. apply F1.
       eapply Permutation_in; [apply Permutation_sym; exact P|exact Hx]. }
     rewrite (evaluate_list_g l1 s F1), (evaluate_list_g l2 s F2).
-    destruct (permutation W g WF NB2 SO2 s l1 l2 I S F1 P) as (A & B & C).
+    destruct (permutation_any W g WF NB2 SO2 s l1 l2 I F1 P) as (A & B & C).
     split; [exact A|]. split; [|exact C].
     intros c Lc. rewrite !(evaluate_g _ c Lc). now apply B.
   Qed.
@@ -859,17 +932,18 @@ Section WeakList.
     - intros s l I S F. split; [now apply settled_list_weak|now apply list_inv_weak].
   Qed.
   (* C05_list_repeat *)
-  Theorem list_repeat_weak s l : Inv W sem s -> settled W s -> ltN W l ->
+  Theorem list_repeat_weak s l : Inv W sem s -> ltN W l ->
     snd (evaluate_list W sem (fst (evaluate_list W sem s l)) l) = snd (evaluate_list W sem s l)
     /\ forall m, st_built (fst (evaluate_list W sem (fst (evaluate_list W sem s l)) l)) m
                  = st_built (fst (evaluate_list W sem s l)) m
               /\ st_cache (fst (evaluate_list W sem (fst (evaluate_list W sem s l)) l)) m
                  = st_cache (fst (evaluate_list W sem s l)) m.
   Proof.
-    intros I S F. apply (Inv_guard W sem WF NBW) in I.
+    intros I F. apply (Inv_guard W sem WF NBW) in I.
     rewrite (evaluate_list_g l s F), (evaluate_list_g l _ F).
-    apply (list_repeat W g WF NB2 SO2 s l I S F).
+    apply (list_repeat_any W g WF NB2 SO2 s l I F).
   Qed.
+
   (* C05_history_order *)
   Theorem history_order_weak s h1 h2 : Inv W sem s -> Forall (be_op W) h1 -> Forall (be_op W) h2 ->
     (forall o, In o h1 <-> In o h2) ->
@@ -909,7 +983,7 @@ Example xl_permutation :
             = st_cache (fst (evaluate_list exaW exa_sem (init exaW) [0; 5; 3])) m.
 Proof.
   apply (permutation_weak exaW exa_sem (exa_wf _) (exa_weak _) xo_stored (init exaW) [5; 3; 0] [0; 5; 3]
-           xo_inv (settled_init exaW)).
+           xo_inv).
   - repeat constructor; cbn; lia.
   - apply Permutation_sym, (Permutation_cons_append [5; 3] 0).
 Qed.
@@ -962,8 +1036,7 @@ Example xl_list_repeat :
   snd (evaluate_list exaW exa_sem (fst (evaluate_list exaW exa_sem (init exaW) [5; 2; 4; 2])) [5; 2; 4; 2])
   = snd (evaluate_list exaW exa_sem (init exaW) [5; 2; 4; 2]).
 Proof.
-  apply (list_repeat_weak exaW exa_sem (exa_wf _) (exa_weak _) xo_stored (init exaW) _ xo_inv
-           (settled_init exaW) xl_ltN).
+  apply (list_repeat_weak exaW exa_sem (exa_wf _) (exa_weak _) xo_stored (init exaW) _ xo_inv xl_ltN).
 Qed.
 
 (* two orders of the same Build/Evaluate operations (a stored-result workbook:
